@@ -5,8 +5,8 @@
    the theorems of C01 / C02 / C03 are stated for them, at any nesting depth, by the same
    inductions. *)
 Require Import EV.Base.Tac EV.Base.Bytes EV.Base.Res EV.Base.ListX.
-Require Import EV.Model.Arith64 EV.Model.Types EV.Model.Layout EV.Model.Ser EV.Model.Deser EV.Model.Header EV.Model.Typing EV.Model.Need EV.Model.Derive.
-Require Import EV.Proofs.Monads EV.Proofs.RoundTrip EV.Proofs.HeaderRT EV.Proofs.SerTotal EV.Proofs.EpsRT EV.Proofs.EpsTop EV.Proofs.DeriveP.
+Require Import EV.Model.Arith64 EV.Model.Types EV.Model.Layout EV.Model.Ser EV.Model.Deser EV.Model.Header EV.Model.Typing EV.Model.Need EV.Model.Derive EV.Model.Generic.
+Require Import EV.Proofs.Monads EV.Proofs.RoundTrip EV.Proofs.HeaderRT EV.Proofs.SerTotal EV.Proofs.EpsRT EV.Proofs.EpsTop EV.Proofs.DeriveP EV.Proofs.GenericP.
 
 (* a definition in the grammar is accepted by the derive (no attribute panic, no unsatisfied bound) *)
 Theorem C05_grammar_is_accepted :
@@ -56,6 +56,30 @@ Theorem C05_desertype_of_derived_types :
     (forall nm isp t r, dty_fields (FCons nm isp t r) = DFCons (if isp then dty_of t else DOwn t) (dty_fields r)).
 Proof. intros i fs vs. repeat split. Qed.
 
+(* The same at the level of type parameters.  A definition before instantiation ([gdef],
+   Model/Generic.v) has fields whose types are expressions over its parameters; [deser_args] is the
+   rule of the documentation -- parameter i is replaced by its own eps-copy type exactly when it is
+   the declared type of some field (of some variant) -- and [dsubst] substitutes those eps-copy
+   types into the declared field types, as rustc does for S<args'>.  For every definition inside
+   the boundary of the grammar ([wf_gdef]: a parameter that is the type of a field is not mentioned
+   inside another field) the eps-copy type the model assigns to the instantiated definition is
+   exactly that substitution instance; outside the boundary the two disagree, which is why such a
+   definition does not compile. *)
+Theorem C05_desertype_is_the_parameter_level_rule :
+  forall (d : gdef) (args : list ty),
+    wf_gdef d = true -> a_zc (g_info d) = false -> List.length args = g_n d ->
+    (forall f i, In f (all_fields d) -> mentions i (snd f) = true -> (i < g_n d)%nat) ->
+    dty_of (inst_def d args) =
+      if g_struct d then DStruct (g_info d) (dsubst_fields (deser_args d args) (g_fields d))
+      else DEnum (g_info d) (dsubst_variants (deser_args d args) (g_variants d)).
+Proof. exact desertype_is_parameter_substitution. Qed.
+
+Theorem C05_boundary_shape_has_no_consistent_type :
+  wf_gdef d13 = false /\
+  dty_of (inst_def d13 [TVec (TPrim (PInt U8))]) <>
+  DStruct (g_info d13) (dsubst_fields (deser_args d13 [TVec (TPrim (PInt U8))]) (g_fields d13)).
+Proof. exact boundary_shape_disagrees. Qed.
+
 (* Every result of eps-copy deserialization inhabits that type: it is borrowed exactly where the
    type says so (with every borrowed part in place, see C03) and owns its data everywhere else --
    in particular a field that merely mentions a parameter holds no reference. For every buffer. *)
@@ -86,5 +110,7 @@ Print Assumptions C05_struct_full_roundtrip.
 Print Assumptions C05_enum_full_roundtrip.
 Print Assumptions C05_eps_roundtrip.
 Print Assumptions C05_desertype_of_derived_types.
+Print Assumptions C05_desertype_is_the_parameter_level_rule.
+Print Assumptions C05_boundary_shape_has_no_consistent_type.
 Print Assumptions C05_eps_results_have_the_eps_type.
 Print Assumptions C05_full_results_own_their_data.
